@@ -3,12 +3,11 @@ from . import ops_ecss
 
 OPS = {}
 OPS.update(ops_ecss.OPS)
-for _name in ("ops_time", "ops_cfdp", "ops_uslp", "ops_util"):
-    try:
+import os as _os
+for _name in ("ops_time", "ops_cfdp", "ops_uslp", "ops_util", "ops_srv1", "ops_msg"):
+    if _os.path.exists(_os.path.join(_os.path.dirname(__file__), _name + ".py")):
         _m = __import__(f"vp.{_name}", fromlist=["OPS"])
         OPS.update(_m.OPS)
-    except ImportError:
-        pass
 
 
 def perform(op, a):
